@@ -1,27 +1,8 @@
 (** Websocket.v -- server_websocket.py: WebSocketServer.
     onOpen, onMessage (ack first, dispatch, Error -> error frame), every
-    handle_*, onClose.  [now s] is time.time(). *)
+    handle_*, onClose.  [now s] is time.time().  (The commands -- [mtype],
+    [command] -- are declared in Monad.v, because an `error` frame echoes one.) *)
 From MW Require Import Base Store Monad Usage Server.
-
-(** * Commands: the JSON object, reduced to the keys the server reads.
-    [None] = key absent.  Unknown extra keys are ignored by the server; the
-    harness checks that on the implementation side through the `orig` echo. *)
-Inductive mtype :=
-| TPing | TBind | TList | TAllocate | TClaim | TRelease | TOpen | TAdd | TClose
-| TUnknown.
-
-Record command := mkCmd
-  { m_type : option mtype;
-    m_id : option string;          (* msg.get("id"): absent and null both read None *)
-    m_appid : option string;
-    m_side : option string;
-    m_nameplate : option string;
-    m_mailbox : option string;
-    m_phase : option string;
-    m_body : option string;
-    m_mood : option string;        (* msg.get("mood") *)
-    m_ping : option Z;
-    m_client_version : option (option string * option string) }.
 
 (** everything nondeterministic the implementation did while handling a command *)
 Record oracle := mkOracle
@@ -219,11 +200,11 @@ Definition on_message (c : nat) (msg : command) (o : oracle) : M unit :=
      | Some t => send c (FAck (m_id msg)) ;;; dispatch c t msg o
      end)
     (fun e => match e with
-              | XErr k => send c (FError k)
+              | XErr k => send c (FError k msg)
               | _ => raise e
               end).
 
-Definition on_open (c : nat) : M unit := send c FWelcome.
+Definition on_open (c : nat) : M unit := send c (FWelcome (welcome cfg)).
 
 (* onClose *)
 Definition on_close (c : nat) : M unit :=
